@@ -63,6 +63,19 @@ def check(c):
         got2 = est.transform(X2)
         if got2.shape != exp2.shape or not numpy.array_equal(got2, exp2):
             return dict(**{"class": "repeated-call"}, what="%s differs from PolynomialFeatures on new data" % who)
+    # the same instance configured otherwise and fitted again on data of the same width: everything follows the new configuration
+    d2, io2 = c["degree"] % 3 + 1, not c["interaction_only"]
+    m.set_params(poly_degree=d2, poly_interaction_only=io2)
+    m.fit(X)
+    sk2 = PolynomialFeatures(d2, interaction_only=io2, include_bias=c["include_bias"]).fit(X)
+    exp3 = sk2.transform(X)
+    try:
+        got3 = m.transform(X)
+    except Exception as e:
+        return dict(**{"class": "refit-other-configuration"}, what="transform after set_params + fit fails: %s: %s" % (type(e).__name__, str(e)[:100]))
+    if m.n_output_features_ != exp3.shape[1] or got3.shape != exp3.shape or not numpy.array_equal(got3, exp3):
+        return dict(**{"class": "refit-other-configuration"}, what="after set_params(degree=%d, interaction_only=%r) and a new fit: %r columns, PolynomialFeatures has %d"
+                    % (d2, io2, getattr(got3, "shape", None), exp3.shape[1]))
     return None
 
 
